@@ -18,7 +18,7 @@
   (`write_auto_styles` / `postprocess`): "author content kept" and "nothing injected when disabled or
   without a root <svg>" are checked on the implementation by the `oracle/doc-*` streams only.
 -/
-import Svgdx.Proofs.ThemeIff
+import Svgdx.Proofs.ThemeNodup
 
 namespace Svgdx.Props.C20
 open Svgdx Svgdx.Theme Str
@@ -232,6 +232,86 @@ example : isReserved cs!"d-grid-100" = true ∧ isReserved cs!"d-grid-101" = fal
     isReserved cs!"d-grid-+7" = true ∧ isReserved cs!"d-grid-h-v" = false ∧ isReserved cs!"d-fill-red" = true ∧
     isReserved cs!"d-fill-notacolour" = false := by decide +kernel
 
+/-! ### (b) url closure: every `url(#id)` is defined exactly once -/
+
+/-- every `url(#id)` mentioned by an emitted definition, or by an emitted rule for a reserved class, is declared
+    (`id="…"`) by exactly one emitted definition.  (The unconditional rules carry the author-supplied background
+    and font family, which may legitimately refer to author definitions; they are not covered.) -/
+theorem url_closure (cfg : ThemeCfg) (classes elements : List Str) (s : Str)
+    (hs : s ∈ (build cfg classes elements).1 ∨
+          (s ∈ (build cfg classes elements).2 ∧ (keyOf s).isSome = true)) :
+    ∀ id ∈ urlRefs s, (((build cfg classes elements).1).flatMap declIds).count id = 1 :=
+  url_closure_with sortU_sub sortU_nodup cfg classes elements s hs
+
+/-- no id is declared twice -/
+theorem declared_ids_nodup (cfg : ThemeCfg) (classes elements : List Str) :
+    (((build cfg classes elements).1).flatMap declIds).Nodup := by
+  have : ((build cfg classes elements).1).flatMap declIds = expectedIds sortU cfg classes :=
+    declIds_defs sortU cfg classes
+  rw [this]
+  exact expectedIds_nodup sortU_nodup
+
+/-- MINIMALITY of the definitions: an id is declared iff it is the arrow marker and an arrow class is used,
+    or the id of a used pattern class, or the id of a used shadow class -/
+theorem def_iff_used (cfg : ThemeCfg) (classes elements : List Str) (id : Str) :
+    id ∈ ((build cfg classes elements).1).flatMap declIds ↔
+      (id = cs!"d-arrow" ∧ (cs!"d-arrow" ∈ classes ∨ cs!"d-biarrow" ∈ classes)) ∨
+      (∃ row ∈ patternRows, ∃ c, RowClass row c ∧ c ∈ classes ∧ id = ptnId c) ∨
+      (∃ p ∈ Gen.Theme.build_table, id = p.1 ∧ p.1 ∈ classes) := by
+  have h1 : ((build cfg classes elements).1).flatMap declIds = expectedIds sortU cfg classes :=
+    declIds_defs sortU cfg classes
+  have h2 : hasArrow classes = true ↔ (cs!"d-arrow" ∈ classes ∨ cs!"d-biarrow" ∈ classes) := by
+    simp only [hasArrow, Bool.or_eq_true, has_iff]
+    exact Iff.rfl
+  rw [h1, mem_expectedIds_iff (fun _ _ => mem_sortU), h2]
+
+/-- the `d-arrow` marker is defined once even if both `d-arrow` and `d-biarrow` are used -/
+theorem arrow_marker_once (cfg : ThemeCfg) (classes elements : List Str)
+    (h : cs!"d-arrow" ∈ classes ∨ cs!"d-biarrow" ∈ classes) :
+    (((build cfg classes elements).1).flatMap declIds).count cs!"d-arrow" = 1 := by
+  rw [List.Nodup.count (declared_ids_nodup cfg classes elements), if_pos]
+  exact (def_iff_used cfg classes elements _).mpr (Or.inl ⟨rfl, h⟩)
+
+/-- a shadow filter is defined once -/
+theorem shadows_once (cfg : ThemeCfg) (classes elements : List Str) (p : Str × Str)
+    (hp : p ∈ Gen.Theme.build_table) (h : p.1 ∈ classes) :
+    (((build cfg classes elements).1).flatMap declIds).count p.1 = 1 := by
+  rw [List.Nodup.count (declared_ids_nodup cfg classes elements), if_pos]
+  exact (def_iff_used cfg classes elements _).mpr (Or.inr (Or.inr ⟨p, hp, rfl, h⟩))
+
+/-- distinct pattern classes have distinct ids (the id is the class without its `d-`) -/
+theorem pattern_ids_injective (r1 r2 : PatternRow) (h1 : r1 ∈ patternRows) (h2 : r2 ∈ patternRows) (c1 c2 : Str)
+    (hc1 : RowClass r1 c1) (hc2 : RowClass r2 c2) (e : ptnId c1 = ptnId c2) : c1 = c2 :=
+  ptnId_injective h1 h2 hc1 hc2 e
+
+/-- … and a class is a pattern class of at most one row of the pattern table -/
+theorem pattern_class_one_row (r1 r2 : PatternRow) (h1 : r1 ∈ patternRows) (h2 : r2 ∈ patternRows) (c : Str)
+    (hc1 : RowClass r1 c) (hc2 : RowClass r2 c) : r1.cls = r2.cls := by
+  cases Classical.em (r1.cls = r2.cls) with
+  | inl h => exact h
+  | inr hne => exact absurd (rowClass_excl h1 h2 hne hc1 hc2) id
+
+/-- a worked instance: both arrow classes, two grids, a stipple, a shadow, text classes, on the dark theme with a
+    local id; every reference is closed and `d-arrow` is declared once -/
+def cfg1 : ThemeCfg :=
+  { theme := .dark, background := cs!"#fff", fontSize := 12, fontFamily := cs!"monospace", localId := some cs!"svgdx-1" }
+
+def classes1 : List Str :=
+  [cs!"d-biarrow", cs!"d-grid-10", cs!"d-arrow", cs!"d-grid-5", cs!"d-stipple", cs!"d-softshadow", cs!"d-text-small",
+   cs!"d-fill-red", cs!"d-grid-101", cs!"mine"]
+
+example :
+    ((build cfg1 classes1 [cs!"text", cs!"rect"]).1).flatMap declIds =
+      [cs!"d-arrow", cs!"grid-10", cs!"grid-5", cs!"stipple", cs!"d-softshadow"] ∧
+    ((build cfg1 classes1 [cs!"text", cs!"rect"]).2).flatMap urlRefs =
+      [cs!"d-arrow", cs!"d-arrow", cs!"d-arrow", cs!"grid-10", cs!"grid-5", cs!"stipple", cs!"d-softshadow"] ∧
+    cs!".d-fill-red { fill: red; }" ∈ (build cfg1 classes1 [cs!"text", cs!"rect"]).2 ∧
+    cs!"text.d-text-small, text.d-text-small * { font-size: 8px; }" ∈ (build cfg1 classes1 [cs!"text", cs!"rect"]).2 ∧
+    cs!"text.d-text-small, text.d-text-small * { font-size: 8px; }" ∉ (build cfg1 classes1 [cs!"rect"]).2 ∧
+    cs!".d-grid-5 {fill: url(#grid-5)}" ∈ (build cfg1 classes1 []).2 ∧
+    (build cfg1 classes1 []).2.all (fun r => keyOf r != some cs!"d-grid-101") = true := by
+  decide +kernel
+
 /-! ### (c) determinism: the output does not depend on the order (or multiplicity) of the class / element sets -/
 
 /-- `build` looks at the class list and the element list only through membership -/
@@ -272,6 +352,16 @@ theorem no_class_no_rule (cfg : ThemeCfg) (classes elements : List Str)
         localClose cfg) :=
   stylesT_base sortU_sub h
 
+/-- a worked instance: a junk class, a near-miss pattern class and an author class give exactly the five base
+    rules of the default theme and no definitions -/
+example : build cfg0 [cs!"mine", cs!"d-grid-101", cs!"d-fill-notacolour"] [cs!"text", cs!"rect"] =
+    ([], [cs!"svg { background: none; }", cs!"svg * { stroke-linecap: round; stroke-linejoin: round; }",
+          cs!"rect, circle, ellipse, polygon { stroke-width: 0.5; fill: white; stroke: black; }",
+          cs!"line, polyline, path { stroke-width: 0.5; fill: none; stroke: black; }",
+          cs!"text, tspan { stroke-width: 0; font-family: sans-serif; font-size: 3px; fill: black; paint-order: stroke; stroke: white; }"]) := by
+  rw [no_class_no_rule cfg0 _ _ (by decide +kernel)]
+  decide +kernel
+
 end Svgdx.Props.C20
 
 #print axioms Svgdx.Props.C20.build_order_checked
@@ -291,6 +381,13 @@ end Svgdx.Props.C20
 #print axioms Svgdx.Props.C20.text_ol_width_rule_iff_used
 #print axioms Svgdx.Props.C20.pattern_rule_iff_used
 #print axioms Svgdx.Props.C20.no_rule_outside_vocabulary
+#print axioms Svgdx.Props.C20.url_closure
+#print axioms Svgdx.Props.C20.declared_ids_nodup
+#print axioms Svgdx.Props.C20.def_iff_used
+#print axioms Svgdx.Props.C20.arrow_marker_once
+#print axioms Svgdx.Props.C20.shadows_once
+#print axioms Svgdx.Props.C20.pattern_ids_injective
+#print axioms Svgdx.Props.C20.pattern_class_one_row
 #print axioms Svgdx.Props.C20.build_mem_invariant
 #print axioms Svgdx.Props.C20.build_perm_invariant
 #print axioms Svgdx.Props.C20.C06_witness_unsorted_not_perm_invariant
